@@ -1292,10 +1292,12 @@ class Interp:
 
     def e_Tuple(self, n, frame, st):
         elts = []
+        parts = []
         star_elem, open_seq = None, False
         for e in n.elts:
             if isinstance(e, ast.Starred):
                 v = self.eval(e.value, frame, st)
+                parts.append(('star', v))
                 if v.elts is not None:
                     elts.extend(v.elts)
                 else:
@@ -1305,9 +1307,10 @@ class Interp:
                     open_seq = True
             else:
                 elts.append(self.eval(e, frame, st))
+                parts.append(('elt', elts[-1]))
         if open_seq:
             el = join_all(elts + ([star_elem] if star_elem is not None else []))
-            return AV(ty='tuple' if isinstance(n, ast.Tuple) else 'list', elem=el, fresh=True,
+            return AV(ty='tuple' if isinstance(n, ast.Tuple) else 'list', elem=el, fresh=True, parts=parts,
                       deps=frozenset().union(*[x.deps or frozenset() for x in elts + ([star_elem] if star_elem is not None else [])]))
         return self.model.make_seq(self, 'tuple' if isinstance(n, ast.Tuple) else 'list', elts, n)
 
